@@ -726,6 +726,55 @@ func c03MissingFields(r *mc.Run, pool []*x509.Certificate) {
 	})
 	r.SectionDone(mc.Section{Name: "missing-field-x-shadow", Evaluations: int64(done), Exhaustive: done == len(cases)})
 
+	// a getter that re-uses its receive buffer: the bytes a signature is checked over and the bytes the values are read
+	// from must be the same bytes of ONE response, also when the buffer has meanwhile received the next response. The
+	// TCB Info response carries an altered member (a level the platform now reaches) with the genuine signature; the QE
+	// identity response that follows carries, as an unsigned extra member in front, the GENUINE TCB Info text — which
+	// lands in the buffer exactly where the altered text stood
+	{
+		wr := world.Honest("T")
+		unreachable := world.PlatformLevel(wr.Plat, wr.Parts.Body[0:16], "UpToDate")
+		unreachable.Tcb.Pcesvn = world.IntP(int(wr.Plat.PCESVN) + 20)
+		wr.TcbInfo.TcbLevels = []world.Level{unreachable}
+		wr.Finish()
+		genuine := wr.TcbRaw
+		altered := bytes.Replace(genuine, []byte(fmt.Sprintf(`"pcesvn":%d`, int(wr.Plat.PCESVN)+20)), []byte(fmt.Sprintf(`"pcesvn":%d`, int(wr.Plat.PCESVN))), 1)
+		sigHex := hex.EncodeToString(wr.PKI.TcbKey.SignRaw(genuine))
+		qeSig := hex.EncodeToString(wr.PKI.TcbKey.SignRaw(wr.QeRaw))
+		if len(altered) == len(genuine) && !bytes.Equal(altered, genuine) {
+			for _, gk := range []string{"ordinary-getter", "recycling-getter"} {
+				for _, tv := range []string{"genuine", "altered"} {
+					id := fmt.Sprintf("recycled-buffer/%s/tcbinfo=%s", gk, tv)
+					if !r.Want(id) {
+						continue
+					}
+					member := genuine
+					if tv == "altered" {
+						member = altered
+					}
+					g := wr.Getter.Clone()
+					u := world.URLTcbInfo(hexs(wr.Plat.FMSPC))
+					g.Responses[u] = world.Response{Header: wr.TcbHdr, Body: []byte(fmt.Sprintf(`{"tcbInfo":%s,"signature":"%s"}`, member, sigHex))}
+					g.Responses[world.URLQeIdentity] = world.Response{Header: wr.QeHdr, Body: []byte(fmt.Sprintf(`{"tcbInfo":%s,"enclaveIdentity":%s,"signature":"%s"}`, genuine, wr.QeRaw, qeSig))}
+					o := wr.Options(world.L1)
+					o.Getter = g
+					if gk == "recycling-getter" {
+						o.Getter = &world.RecyclingGetter{Inner: g}
+					}
+					err := world.SafeVerifyRaw(wr.Raw(), o)
+					out := verdict(err)
+					// genuine: no level is reached -> rejected; altered: not authentic -> rejected
+					if err == nil {
+						r.Violate("recycled-buffer:accepted:"+gk+":"+tv, id, "quote accepted although the signed TCB Info lists no level the platform reaches (the "+tv+" member was served)", nil)
+						out = "accept!"
+					}
+					r.Eval(id, true, "recycled-buffer:"+out)
+				}
+			}
+		} else {
+			r.HarnessError("C03 recycled-buffer: could not build an altered member of equal length")
+		}
+	}
 	// successive answers: the service answers the same URL differently from one request to the next (an error, a
 	// partial body, then another partial body). A document is authentic only if ONE response carries both the member
 	// and a signature over it: pieces of different responses do not add up. Sequences in which no single response is
